@@ -136,7 +136,12 @@ theorem resize_write (pp : PP) (c : Cursor) (sect : Section) (pre old rest post 
       congr 1
       simp
 
-theorem shiftNat_diff {x nw cur : Nat} (h : cur ≤ x) : shiftNat x (Int.ofNat nw - Int.ofNat cur) = x + nw - cur := by
+theorem shiftNat_diff' (x nw cur : Nat) : shiftNat x (Int.ofNat nw - Int.ofNat cur) = x + nw - cur := by
+  unfold shiftNat
+  simp only [Int.ofNat_eq_natCast]
+  omega
+
+theorem shiftNat_diff {x nw cur : Nat} (_h : cur ≤ x) : shiftNat x (Int.ofNat nw - Int.ofNat cur) = x + nw - cur := by
   unfold shiftNat
   simp only [Int.ofNat_eq_natCast]
   omega
@@ -203,7 +208,10 @@ theorem PlainObj.set_name {pp : PP} (P : PlainObj pp) (sec : Section) (hs : sec.
       P'.lst sec = ps1 ++ ((encLabels owner' ++ [0]) ++ f8 ++ put16 rd.length ++ rd) :: ps2 ∧
       (∀ s, s ≠ sec → P'.lst s = P.lst s) ∧ P'.qls = P.qls ∧ P'.q4 = P.q4 ∧ P'.hdr = P.hdr ∧
       pp'.cached = none ∧ pp'.ednsCount = pp.ednsCount ∧ pp'.extRcode = pp.extRcode ∧ pp'.ednsVersion = pp.ednsVersion ∧
-      pp'.extFlags = pp.extFlags ∧ pp'.maxPayload = pp.maxPayload := by
+      pp'.extFlags = pp.extFlags ∧ pp'.maxPayload = pp.maxPayload ∧
+      pp'.offsetEdns = (if optLt c.offset pp.offsetEdns then
+          pp.offsetEdns.map (fun x => x + ((encLabels owner' ++ [0]) ++ f8 ++ put16 rd.length ++ rd).length - rc.length)
+        else pp.offsetEdns) ∧ GoodLabels owner ∧ f8.length = 8 ∧ rd.length < 65536 ∧ get16 f8 0 ≠ 41 := by
   obtain ⟨owner, f8, rd, pre, post, ob', oa', hpk, hprel, hrc, hgo, hf8, hlt, hnon, hr', hty⟩ := P.shape_at sec hs hsplit
   have hne' : ne = pre.length + labSum owner + 1 := by
     rw [← hprel] at hr
@@ -258,7 +266,7 @@ theorem PlainObj.set_name {pp : PP} (P : PlainObj pp) (sec : Section) (hs : sec.
   have hq : c.sec ≠ .question := by
     rw [hsec]; intro h; rw [h] at hs; simp [Section.isRec] at hs
   have hrc2 := recompute_spec hr2 ⟨c.sec, some (P.start sec + ps1.flatten.length), c.offsetNext + (labSum owner' + 1) - (labSum owner + 1), c.nameEnd, c.rrsLeft⟩ rfl hq
-  refine ⟨owner, f8, rd, pp2, P', hrc, ?_, f1, f2, f3, f4, f5, ?_, ?_, ?_, ?_, ?_, ?_⟩
+  refine ⟨owner, f8, rd, pp2, P', hrc, ?_, f1, f2, f3, f4, f5, ?_, ?_, ?_, ?_, ?_, ?_, ?_, hgo, hf8, hlt, h41⟩
   · unfold setRawName
     rw [checkArg_ok owner' hgo']
     have htk : (encLabels owner' ++ [0]).take (labSum owner' + 1) = encLabels owner' ++ [0] := by
@@ -295,5 +303,20 @@ theorem PlainObj.set_name {pp : PP} (P : PlainObj pp) (sec : Section) (hs : sec.
   · show (pp1.afterResize _ _ _ _).ednsVersion = _; rw [g11]
   · show (pp1.afterResize _ _ _ _).extFlags = _; rw [g12]
   · show (pp1.afterResize _ _ _ _).maxPayload = _; rw [g13]
+  · show (pp1.afterResize _ _ _ _).offsetEdns = _
+    rw [g8]
+    show (if optLt c.offset pp.offsetEdns then _ else pp.offsetEdns) = _
+    by_cases hlt' : optLt c.offset pp.offsetEdns = true
+    · rw [if_pos hlt', if_pos hlt']
+      cases hoe : pp.offsetEdns with
+      | none => rfl
+      | some x =>
+        rw [hoe, hoff] at hlt'
+        simp only [optLt, decide_eq_true_eq] at hlt'
+        simp only [Option.map_some]
+        rw [shiftNat_diff']
+        congr 1
+        omega
+    · rw [if_neg hlt', if_neg hlt']
 
 end Dns
